@@ -1,5 +1,6 @@
 /-
-  C14 — helper lemmas about URL query extraction (`queryOf`) and `parse_qsl` over glued URLs.
+  C14 — helper lemmas about URL query extraction (`queryOf`), `parse_qsl` over glued URLs and
+  `pack.add_query` (`addQuery_spec`).
 -/
 import PysamlModel.Proofs.C14Codec
 import PysamlModel.Model.Bindings
@@ -171,37 +172,166 @@ theorem b64decodeStr_encode (bs : Bytes) (h : IsBytes bs) : b64decodeStr (b64enc
 
 end Codec
 
+namespace Codec
+open Bindings C14Spec
+
+
+theorem takeWhile_all' {p : Nat → Bool} (l : List Nat) (h : ∀ x ∈ l, p x = true) : l.takeWhile p = l := by
+  induction l with
+  | nil => rfl
+  | cons x l ih => simp [List.takeWhile, h x (by simp), ih (fun y hy => h y (by simp [hy]))]
+
+/-- `takeWhile` stops at the first `#`: a `#`-free prefix followed by nothing or by `#…`. -/
+theorem takeWhile_hash (a frag : Bytes) (ha : 35 ∉ a) (hf : frag = [] ∨ frag.head? = some 35) :
+    (a ++ frag).takeWhile (· != 35) = a := by
+  induction a with
+  | nil =>
+    rcases hf with e | e
+    · subst e; rfl
+    · cases frag with
+      | nil => rfl
+      | cons c t => simp at e; subst e; simp [List.takeWhile]
+  | cons x a ih =>
+    have hx : x ≠ 35 := by intro e; subst e; simp at ha
+    have : (x != 35) = true := by simp [hx]
+    simp only [List.cons_append, List.takeWhile, this]
+    rw [ih (fun hm => ha (by simp [hm]))]
+
+theorem dropWhile_head (l : Bytes) : l.dropWhile (· != 35) = [] ∨ (l.dropWhile (· != 35)).head? = some 35 := by
+  induction l with
+  | nil => left; rfl
+  | cons x l ih =>
+    by_cases hx : x = 35
+    · subst hx; right; simp [List.dropWhile]
+    · have : (x != 35) = true := by simp [hx]
+      simp only [List.dropWhile, this]; exact ih
+
+theorem not_mem_takeWhile_hash (l : Bytes) : 35 ∉ l.takeWhile (· != 35) := by
+  induction l with
+  | nil => simp
+  | cons x l ih =>
+    by_cases hx : x = 35
+    · subst hx; simp [List.takeWhile]
+    · have : (x != 35) = true := by simp [hx]
+      simp only [List.takeWhile, this, List.mem_cons, not_or]
+      exact ⟨fun e => hx e.symm, ih⟩
+
+
+theorem dropWhile_q_fresh (base q : Bytes) (h : 63 ∉ base) : (base ++ 63 :: q).dropWhile (· != 63) = 63 :: q := by
+  induction base with
+  | nil => simp
+  | cons y l ih =>
+    have hy : y ≠ 63 := by intro e; subst e; simp at h
+    have : (y != 63) = true := by simp [hy]
+    simp only [List.cons_append, List.dropWhile, this]
+    exact ih (fun hm => h (by simp [hm]))
+
+theorem dropWhile_all' {p : Nat → Bool} (l : List Nat) (h : ∀ x ∈ l, p x = true) : l.dropWhile p = [] := by
+  induction l with
+  | nil => rfl
+  | cons x l ih => simp [List.dropWhile, h x (by simp), ih (fun y hy => h y (by simp [hy]))]
+
+theorem dropWhile_append_mem {p : Nat → Bool} (l r : List Nat) (h : ∃ x ∈ l, p x = false) :
+    (l ++ r).dropWhile p = l.dropWhile p ++ r := by
+  induction l with
+  | nil => obtain ⟨x, hx, _⟩ := h; cases hx
+  | cons y l ih =>
+    by_cases hy : p y = true
+    · obtain ⟨x, hx, hpx⟩ := h
+      have : x ∈ l := by
+        rcases List.mem_cons.mp hx with e | e
+        · subst e; rw [hy] at hpx; cases hpx
+        · exact e
+      simp [List.dropWhile, hy, ih ⟨x, this, hpx⟩]
+    · simp [List.dropWhile, hy]
+
+/-- A list containing `?` splits at its first `?`. -/
+theorem split_first_q (base : Bytes) (h : 63 ∈ base) :
+    ∃ pre qb, base = pre ++ 63 :: qb ∧ 63 ∉ pre ∧ base.dropWhile (· != 63) = 63 :: qb := by
+  induction base with
+  | nil => cases h
+  | cons y l ih =>
+    by_cases hy : y = 63
+    · subst hy; exact ⟨[], l, rfl, by simp, by simp [List.dropWhile]⟩
+    · have hl : 63 ∈ l := by
+        rcases List.mem_cons.mp h with e | e
+        · exact absurd e.symm hy
+        · exact e
+      obtain ⟨pre, qb, h1, h2, h3⟩ := ih hl
+      refine ⟨y :: pre, qb, by simp [h1], ?_, ?_⟩
+      · simp only [List.mem_cons, not_or]; exact ⟨fun e => hy e.symm, h2⟩
+      · have : (y != 63) = true := by simp [hy]
+        simp only [List.dropWhile, this]; exact h3
+
+theorem snoc_of_getLast? (l : Bytes) (x : Nat) (h : l.getLast? = some x) : ∃ l', l = l' ++ [x] := by
+  induction l with
+  | nil => simp at h
+  | cons a t ih =>
+    cases t with
+    | nil => simp at h; subst h; exact ⟨[], rfl⟩
+    | cons b t' =>
+      rw [List.getLast?_cons_cons] at h
+      obtain ⟨l', hl⟩ := ih h
+      exact ⟨a :: l', by rw [hl]; rfl⟩
+
+theorem parseQsl_nil : parseQsl [] = [] := by
+  simp [parseQsl, split, splitOn, parseField, splitFirst]
+
+theorem parseQsl_append' (q e : Bytes) : parseQsl (q ++ 38 :: e) = parseQsl q ++ parseQsl e := by
+  unfold parseQsl
+  rw [split_append_sep_any, List.filterMap_append]
+
+/-- **`add_query` delivers** for EVERY destination (with or without fragment, with no query, an
+    empty query or an existing one): the receiver's parameters are the destination's own followed
+    by the parameters of the appended query. -/
+theorem addQuery_spec (loc q : Bytes) (args : List (Bytes × Bytes)) (hq : 35 ∉ q) (hp : parseQsl q = args) :
+    specUrl loc args (addQuery loc q) = true := by
+  unfold specUrl addQuery
+  simp only
+  generalize hbase : loc.takeWhile (· != 35) = base
+  have hb35 : 35 ∉ base := by rw [← hbase]; exact not_mem_takeWhile_hash loc
+  have hfrag := dropWhile_head loc
+  have hqloc : queryOf loc = (base.dropWhile (· != 63)).drop 1 := by unfold queryOf; rw [hbase]
+  rw [hqloc]
+  by_cases h63 : 63 ∈ base
+  · obtain ⟨pre, qb, hsplit, hpre, hdw⟩ := split_first_q base h63
+    have hc : base.contains 63 = true := by simpa using h63
+    simp only [hc, Bool.not_true, Bool.false_eq_true, if_false]
+    rw [hdw]
+    simp only [List.drop_succ_cons, List.drop_zero]
+    by_cases hg : qb = [] ∨ qb.getLast? = some 38
+    · simp only [hg, if_true, List.append_nil]
+      unfold queryOf
+      rw [takeWhile_hash (base ++ q) _ (by simp [hb35, hq]) hfrag,
+        dropWhile_append_mem base q ⟨63, h63, by decide⟩, hdw]
+      simp only [List.cons_append, List.drop_succ_cons, List.drop_zero]
+      rcases hg with hqb | h38
+      · subst hqb; simp [parseQsl_nil, hp]
+      · obtain ⟨qb', rfl⟩ := snoc_of_getLast? qb 38 h38
+        rw [List.append_assoc, List.singleton_append, parseQsl_append', parseQsl_append', parseQsl_nil, hp]
+        simp
+    · simp only [hg, if_false]
+      unfold queryOf
+      rw [takeWhile_hash (base ++ [38] ++ q) _ (by simp [hb35, hq]) hfrag, List.append_assoc,
+        dropWhile_append_mem base ([38] ++ q) ⟨63, h63, by decide⟩, hdw]
+      simp only [List.cons_append, List.drop_succ_cons, List.drop_zero, List.nil_append]
+      rw [parseQsl_append', hp]
+      simp
+  · have hc : base.contains 63 = false := by simpa using h63
+    simp only [hc, Bool.not_false, if_true]
+    unfold queryOf
+    rw [takeWhile_hash (base ++ [63] ++ q) _ (by simp [hb35, hq]) hfrag, List.append_assoc]
+    simp only [List.singleton_append]
+    rw [dropWhile_q_fresh base q h63]
+    have : base.dropWhile (· != 63) = [] := dropWhile_all' base (by
+      intro x hx; simp; intro e; subst e; exact h63 hx)
+    rw [this]
+    simp [parseQsl_nil, hp]
+
+end Codec
+
 namespace C14
 open Codec Bindings C14Spec
-
-
-
-/-- Under `locOk`, gluing a query that reads back as `args` gives a URL whose parameters are the
-    destination's own followed by `args`. -/
-theorem glue_spec (loc q : Bytes) (args : List (Bytes × Bytes)) (hq : 35 ∉ q) (hp : parseQsl q = args)
-    (hloc : locOk loc = true) :
-    specUrl loc args (loc ++ (if locQueryTruthy loc then 38 else 63) :: q) = true := by
-  unfold locOk at hloc
-  simp only [Bool.and_eq_true, Bool.or_eq_true, Bool.not_eq_true', List.contains_eq_mem, decide_eq_false_iff_not] at hloc
-  obtain ⟨h35, hq63⟩ := hloc
-  unfold specUrl
-  by_cases ht : locQueryTruthy loc = true
-  · have h63 : 63 ∈ loc := by
-      unfold locQueryTruthy at ht
-      have hne : queryOf (loc.filter (fun c => c != 9 && c != 10 && c != 13)) ≠ [] := by
-        intro e; simp [e] at ht
-      exact (List.mem_filter.mp (mem_of_queryOf_ne_nil _ hne)).1
-    simp only [ht, if_true]
-    rw [queryOf_glue_amp loc q h63 h35 hq, parseQsl_append, hp]
-    simp
-  · have h63 : 63 ∉ loc := by
-      rcases hq63 with h | h
-      · exact h
-      · exact absurd h ht
-    have ht' : locQueryTruthy loc = false := by simpa using ht
-    simp only [ht', Bool.false_eq_true, if_false]
-    rw [queryOf_glue_q loc q h63 h35 hq, queryOf_no_q loc h63, hp]
-    simp [parseQsl, split, splitOn, parseField, splitFirst]
 
 
 
